@@ -267,8 +267,9 @@ func (conn *ConnectionSet) ReplaceNamedPortWithMatchingPortNum(protocol v1.Proto
 	if portNum != NoPort {
 		protocolPortSet.AddPort(intstr.FromInt32(portNum))
 	}
-	// after adding the portNum to the protocol's portSet; remove the port name
-	protocolPortSet.RemovePort(intstr.FromString(namedPort))
+	// after adding the portNum to the protocol's portSet; remove the port name.
+	// the name is replaced by its number, not excluded: it must not be recorded in ExcludedNamedPorts
+	delete(protocolPortSet.NamedPorts, namedPort)
 }
 
 // portRange implements the PortRange interface
